@@ -7,6 +7,7 @@ Line-protocol operations for the burst model (C01).
 * `burst.parse <U|V|D> <264 bits>`  → `ok <sync> <start><vocoder><data><hasEmb> <emb|-> <slot|-> <payload|-> <as_bits | ERR …>`
 * `burst.build <cc> <sync value> <kind> <fields …>` → the 264 bits of the assembled burst, or `ERR …`
 * `slot.dec <20 bits>`, `emb.dec <16 bits>` → fields and re-serialised bits
+* `sync.resolve <48-bit value>` → pattern value or `EMB` (`SyncPatterns.resolve_bytes`)
 -/
 
 namespace Dmr.Driver
@@ -97,6 +98,9 @@ def burstOp (op : String) (a : List String) : Option String :=
     some (match SlotType.dec bs with
       | .ok s => "ok " ++ slotToString s ++ " " ++ sBits s.enc
       | .error e => e.toString)
+  | "sync.resolve", [v] => do
+    let v ← pNat v
+    some (syncToString (Sync.resolve v))
   | "emb.dec", [bs] => do
     let bs ← pBits bs
     some (match Emb.dec bs with
